@@ -303,6 +303,13 @@ func runC15() {
 	srcs = append(srcs, "Half(F64 * 2) + I / 2", "Half(F64 * 3) + I % 3", "[Half(F64 * 2), I / 2, 2]", "Half(F64 + 7) * 0 + I / 7", "Half(F64 * 2) > 0 ? I / 2 : 0", "I / 2 + Half(F64 * 2)",
 		"Half(2) + I / 2", "[Half(4), I % 4, 4]")
 	srcs = append(srcs, "((IsPos(I) ? -7 : Add(I, 7)) in 2..8)", "Inc(I) in 1..9", "Inc(I) not in 1..9", "P?.Next?.Get(2, I16, 0)", "P?.Get(1)", "St.Next?.Get(1, 2)")
+	// comparisons with nil of operands whose STATIC type cannot hold nil although the value can be nil (a conditional with a nil
+	// branch, elements of a map over nil-safe members, a nil-safe chain): typed and untyped compiles agree
+	for _, a := range []string{"(B ? nil : I)", "(B2 ? nil : I)", "(B ? I : nil)", "(B2 ? S : nil)", "(B ? nil : F64)", "(B2 ? nil : St)", "P?.X", "P?.Next?.X", "St.Next?.Y", "map([P, P?.Next], {#?.X})[1]",
+		"map([St.Next, P], {#?.Y})[0]", "(B ? nil : B2)", "I", "S", "St", "F64", "P", "MA.n", "Any"} {
+		srcs = append(srcs, a+" == nil", a+" != nil", "nil == "+a, "nil != "+a, "not ("+a+" == nil)", "("+a+" == nil) ? 1 : 2")
+	}
+	srcs = append(srcs, "count(map([P, P?.Next, St.Next], {#?.X}), {# == nil})", "filter(map([P, St.Next], {#?.Y}), {# != nil})", "all(map([P], {#?.Next?.Next?.X}), {# == nil})")
 	ints := []string{"I", "I8", "I16", "I32", "I64", "U", "U8", "U16", "U32", "U64", "1", "300", "F64", "Any"}
 	for _, a := range ints {
 		for _, b := range ints {
